@@ -30,14 +30,20 @@ def plan(tier, seed):
     return shards
 
 
-def build_row(pairs, rev, cuts):
+def build_row(pairs, rev, cuts, coin=()):
+    """coin: pair indices whose query AND reference label coordinates equal those of the previous pair (coincident labels
+    are legal CMAP content; site ids stay distinct)."""
     from src.alignment.alignment_position import AlignedPair, ScoredAlignedPair
     from src.alignment.alignment_results import AlignmentResultRow
     from src.alignment.segments import AlignmentSegment
     from src.correlation.optical_map import PositionWithSiteId
     from src.correlation.peak import Peak
-    pos = [ScoredAlignedPair(AlignedPair(PositionWithSiteId(r, r * 1000), PositionWithSiteId(q, i * 1000)), 1000.)
-           for i, (r, q) in enumerate(pairs)]
+    pos = []
+    rp = qp = 0
+    for i, (r, q) in enumerate(pairs):
+        if i == 0 or i not in coin:
+            rp, qp = r * 1000, i * 1000
+        pos.append(ScoredAlignedPair(AlignedPair(PositionWithSiteId(r, rp), PositionWithSiteId(q, qp)), 1000.))
     segs = []
     prev = 0
     for c in list(cuts) + [len(pos)]:
@@ -48,8 +54,10 @@ def build_row(pairs, rev, cuts):
     return AlignmentResultRow(segs, 7, 1, 10 ** 6, 10 ** 6, 0, 0, 0, 0, rev, 0.)
 
 
-def judge_pairs(pairs, rev, cuts, sh, tag):
-    row = build_row(pairs, rev, cuts)
+def judge_pairs(pairs, rev, cuts, sh, tag, coin=()):
+    row = build_row(pairs, rev, cuts, coin)
+    if coin:
+        sh.count('rows-with-coincident-label-coordinates')
     sh.evaluations += 1
     sh.count(tag + '-rows')
     try:
@@ -57,14 +65,14 @@ def judge_pairs(pairs, rev, cuts, sh, tag):
     except Exception as ex:
         info = pipeline.error_info(ex)
         sh.violation('cigarString-raises:%s' % info['type'], 'cigarString raised %s on pairs %s rev=%s' % (
-            info['msg'], pairs[:20], rev), {'kind': 'pairs', 'pairs': pairs, 'rev': rev, 'cuts': list(cuts)})
+            info['msg'], pairs[:20], rev), {'kind': 'pairs', 'pairs': pairs, 'rev': rev, 'cuts': list(cuts), 'coin': list(coin)})
         return
     if len(pairs) == 1:
         sh.count('one-pair-rows')
     errs = oracles.hitenum(hit, pairs, '-' if rev else '+')
     for k, t in errs[:1]:
         sh.violation(k, 'pairs %s rev=%s segments cut at %s: %s' % (pairs[:20], rev, list(cuts), t),
-                     {'kind': 'pairs', 'pairs': pairs, 'rev': rev, 'cuts': list(cuts)})
+                     {'kind': 'pairs', 'pairs': pairs, 'rev': rev, 'cuts': list(cuts), 'coin': list(coin)})
     return hit
 
 
@@ -84,6 +92,9 @@ def run_grid(spec, sh):
                             cutsets.append((1, k - 1))
                         for cuts in cutsets:
                             hit = judge_pairs(pairs, rev, cuts, sh, 'grid')
+                            if k >= 2 and not cuts:
+                                for ci in sorted({1, k // 2, k - 1} - {0}):
+                                    judge_pairs(pairs, rev, cuts, sh, 'grid', coin=(ci,))
                             sh.space += 1
                             if gaps or k == 1:
                                 sh.nontrivial_enum += 1
@@ -108,7 +119,8 @@ def run_random(spec, sh):
         pairs = [list(p) for p in zip(rs, reversed(qs_) if rev else qs_)]
         cuts = sorted(set(rng.randint(1, k) for _ in range(rng.randint(0, 3)))) if k > 1 else []
         cuts = [c for c in cuts if c < k]
-        judge_pairs(pairs, rev, cuts, sh, 'random')
+        coin = tuple(sorted(set(rng.randint(1, k - 1) for _ in range(rng.randint(1, 3))))) if k > 1 and rng.random() < 0.4 else ()
+        judge_pairs(pairs, rev, cuts, sh, 'random', coin)
         sh.nt([pairs, rev])
 
 
@@ -163,7 +175,7 @@ def run_shard(spec):
 def replay(case):
     sh = Shard()
     if case.get('kind') == 'pairs':
-        judge_pairs([list(p) for p in case['pairs']], case['rev'], case['cuts'], sh, 'replay')
+        judge_pairs([list(p) for p in case['pairs']], case['rev'], case['cuts'], sh, 'replay', tuple(case.get('coin', ())))
     else:
         judge_e2e(case, case['workdir'], sh)
     return [{'key': v['key'], 'what': v['what']} for v in sh.violations]
